@@ -940,30 +940,76 @@ def eval_term(t, env_of):
 
 
 def explore_under(fn, env_of, limit=4000):
-    """set of return blocks reachable from the entry when every switch whose discriminant `eval_term` decides under the
-    environment takes only the decided edge (undecidable switches take all edges): abstract execution of a loop-free body"""
-    out, seen, st = set(), set(), [0]
+    """(return blocks reached, blocks visited) by abstract execution from the entry: values of locals are tracked *along the
+    path* (constants, plain copies, and whatever `eval_term` decides for a right-hand side or a call result under the
+    environment), every switch whose discriminant is thereby decided takes only the decided edge, an undecided switch forks.
+    For loop-free bodies (a visited (block, state) pair is not re-entered)."""
+    out, visited = set(), set()
+    seen_states = set()
+    undecided = set()
+    stack = [(0, {})]
     n = 0
-    while st and n < limit:
+
+    def val_of(op, st):
+        if not isinstance(op, dict):
+            return None
+        if op.get("k") == "const":
+            v = op.get("v")
+            return v if isinstance(v, (bool, int)) else None
+        if "l" in op and not op.get("p") and op["l"] in st:
+            return st[op["l"]]
+        v = eval_term(origin(fn, op), env_of)
+        return v
+    while stack and n < limit:
         n += 1
-        b = st.pop()
-        if b in seen or fn.is_cleanup(b):
+        b, st = stack.pop()
+        if fn.is_cleanup(b):
             continue
-        seen.add(b)
+        key = (b, tuple(sorted((k, repr(v)) for k, v in st.items())))
+        if key in seen_states:
+            continue
+        seen_states.add(key)
+        visited.add(b)
+        st = dict(st)
+        for s_ in fn.blocks[b]["stmts"]:
+            if s_["k"] != "assign" or s_["lhs"].get("p"):
+                continue
+            rv = s_["rv"]
+            v = None
+            if rv["k"] == "use" and rv.get("ops"):
+                v = val_of(rv["ops"][0], st)
+            else:
+                v = eval_term(rvalue_origin(fn, rv, 0, frozenset(), 40), env_of)
+                if v is None and rv["k"] == "un" and rv.get("op") == "Not" and rv.get("ops"):
+                    x = val_of(rv["ops"][0], st)
+                    v = (not x) if isinstance(x, bool) else None
+            if v is None:
+                st.pop(s_["lhs"]["l"], None)
+            else:
+                st[s_["lhs"]["l"]] = v
         t = fn.term(b)
         if t["k"] == "return":
             out.add(b)
             continue
+        if t["k"] == "call":
+            v = eval_term(call_origin(fn, t, 0, frozenset(), 40), env_of)
+            if v is None:
+                st.pop(t["dest"]["l"], None)
+            else:
+                st[t["dest"]["l"]] = v
         if t["k"] == "switch":
-            v = eval_term(origin(fn, t["discr"]), env_of)
+            v = val_of(t["discr"], st)
             if isinstance(v, bool):
                 v = int(v)
             if isinstance(v, int):
                 hit = [tb for (val, tb) in t.get("targets", []) if val == v]
-                st.append(hit[0] if hit else t["otherwise"])
+                stack.append((hit[0] if hit else t["otherwise"], st))
                 continue
-        st += fn.succ(b)
-    return out, seen
+            undecided.add(b)
+        for sx in fn.succ(b):
+            stack.append((sx, st))
+    explore_under.undecided = undecided
+    return out, visited
 
 
 def closures_in_term(t, out=None):
